@@ -247,10 +247,19 @@ func isRepoType(t types.Type) bool {
 	return false
 }
 
-type unsupported struct{ why string }
+type unsupported struct {
+	why    string
+	hazard bool
+}
 
+// unsup: construct outside the modelled subset; the caller havocs (sound).
 func (e *Enc) unsup(f string, a ...interface{}) {
-	panic(unsupported{fmt.Sprintf(f, a...)})
+	panic(unsupported{why: fmt.Sprintf(f, a...)})
+}
+
+// hazard: construct whose havoc abstraction could be unsound (hidden aliasing); taints.
+func (e *Enc) hazard(f string, a ...interface{}) {
+	panic(unsupported{why: fmt.Sprintf(f, a...), hazard: true})
 }
 
 // scalarSort returns the SMT sort for scalar-like Go types.
